@@ -354,6 +354,10 @@ def run_check(mod, argv):
             r = mod.run_case(ctx, case)
         except ModelError as e:
             r = Result(False, True, {"model_error": str(e)})
+        except Exception as e:  # an exception the case did not expect (valid input rejected, crash in glue, ...)
+            import traceback
+            r = Result(False, True, {"why": "unexpected exception from the implementation or harness",
+                                     "exception": repr(e)[:500], "trace": traceback.format_exc()[-1200:]})
         evaluations += 1
         if r.cls:
             dist[r.cls] = dist.get(r.cls, 0) + 1
